@@ -740,9 +740,13 @@ class Analysis:
                         else:
                             self.undispatched.append(f'{name}[{c!r}] at {f.where}:{n.lineno} (caught and re-raised)')
                     return joins(vs)
-                if isinstance(n.slice, ast.Attribute) and n.slice.attr in ('op_string', 'op_symbol'):
-                    scope = node_scope(f, n, txt(n.slice.value))
-                    self.labels.setdefault((scope, n.slice.attr, tuple(keys)), f'{f.where}:{n.lineno} {txt(n)}')
+                sl = n.slice
+                if isinstance(sl, ast.Name):
+                    # a local that only abbreviates <node>.op_string / <node>.op_symbol (assigned exactly once in this function)
+                    sl = local_alias(f.node, sl.id) or sl
+                if isinstance(sl, ast.Attribute) and sl.attr in ('op_string', 'op_symbol'):
+                    scope = node_scope(f, n, txt(sl.value))
+                    self.labels.setdefault((scope, sl.attr, tuple(keys)), f'{f.where}:{n.lineno} {txt(n)}')
                     return joins([self.expr(x, {}, self.w.func(m, _modfn(m)), frozenset()) for x in d.values])
                 raise Fail(f'{f.where}:{n.lineno}: lookup {txt(n)} in table {name} with a key the translator cannot classify')
             return V()
@@ -1000,6 +1004,37 @@ def guard_sets(test):
     return frozenset(), frozenset()
 
 
+def local_alias(fn, name):
+    """the Attribute node E if `name` is bound exactly once in function fn, by a plain `name = E` with E = <Name>.op_string / .op_symbol,
+    and <Name> itself is a parameter or is never re-bound; None otherwise (fail-closed: the caller then cannot classify the key)"""
+    binds = []
+    for x in ast.walk(fn):
+        tg = []
+        if isinstance(x, ast.Assign):
+            tg = x.targets
+        elif isinstance(x, (ast.AnnAssign, ast.AugAssign, ast.NamedExpr)):
+            tg = [x.target]
+        elif isinstance(x, (ast.For, ast.comprehension)):
+            tg = [x.target]
+        elif isinstance(x, ast.withitem) and x.optional_vars is not None:
+            tg = [x.optional_vars]
+        elif isinstance(x, ast.arg) and x.arg == name:
+            binds.append(None)
+        for t in tg:
+            for y in ast.walk(t):
+                if isinstance(y, ast.Name) and y.id == name:
+                    binds.append(x)
+    if len(binds) != 1 or not isinstance(binds[0], ast.Assign) or len(binds[0].targets) != 1 or not isinstance(binds[0].targets[0], ast.Name):
+        return None
+    v = binds[0].value
+    if isinstance(v, ast.Attribute) and v.attr in ('op_string', 'op_symbol') and isinstance(v.value, ast.Name):
+        recv = v.value.id
+        rebinds = [x for x in ast.walk(fn) if isinstance(x, ast.Name) and x.id == recv and isinstance(x.ctx, ast.Store)]
+        if not rebinds:
+            return v
+    return None
+
+
 def node_scope(f, target, recv):
     """which tree nodes reach `target` inside function f: walk the if/elif chains that test <recv>.is_leaf / <recv>.is_unary"""
     path = []
@@ -1083,9 +1118,19 @@ def cli_formats(repo):
     return out
 
 
+def _const_returns(node, where):
+    """the string constants a returned expression can be: a literal or a conditional expression of such"""
+    if cstr(node) is not None:
+        return [cstr(node)]
+    if isinstance(node, ast.IfExp):
+        return _const_returns(node.body, where) + _const_returns(node.orelse, where)
+    raise Fail(f'{where}: non-constant return')
+
+
 def _all_paths_return_const(stmts, where):
-    """every path through stmts ends in `return <str constant>`; returns the constants"""
+    """every path through stmts ends in `return <str constant | conditional of constants>`; returns the constants"""
     out = []
+    stmts = [s for s in stmts if not (isinstance(s, ast.Pass) or (isinstance(s, ast.Expr) and isinstance(s.value, ast.Constant)))]
     if not stmts:
         raise Fail(f'{where}: a path falls off the end (returns None)')
     for st in stmts[:-1]:
@@ -1095,16 +1140,12 @@ def _all_paths_return_const(stmts, where):
                 for x in sub:
                     for r in ast.walk(x):
                         if isinstance(r, ast.Return):
-                            if cstr(r.value) is None:
-                                raise Fail(f'{where}: non-constant return')
-                            out.append(cstr(r.value))
+                            out += _const_returns(r.value, where)
         elif any(isinstance(r, ast.Return) for r in ast.walk(st)):
             raise Fail(f'{where}: unsupported control flow')
     last = stmts[-1]
     if isinstance(last, ast.Return):
-        if cstr(last.value) is None:
-            raise Fail(f'{where}: non-constant return')
-        out.append(cstr(last.value))
+        out += _const_returns(last.value, where)
     elif isinstance(last, ast.If):
         out += _all_paths_return_const(last.body, where)
         out += _all_paths_return_const(last.orelse, where)
@@ -1113,45 +1154,114 @@ def _all_paths_return_const(stmts, where):
     return out
 
 
-def _label_values(node, fn, m, where):
-    """possible string values of an op_string/op_symbol argument"""
+def _params(fn):
+    a = fn.args
+    if a.vararg or a.kwarg or a.kwonlyargs or a.posonlyargs:
+        return None
+    return [p.arg for p in a.args]
+
+
+def _label_source(node, fn, m, binds, where, depth=0):
+    """where the value of a label expression comes from: ('vals', [strings]) for literals and conditionals of literals,
+    ('helper', name, [strings]) for a call of a literal-returning helper (two labels fed by ONE such call are equal).
+    `binds` maps the parameters of fn to (argument node, calling function, its binds) when fn is a result-building helper."""
+    if depth > 20:
+        raise Fail(f'{where}: label expression nested too deeply')
     if cstr(node) is not None:
-        return [cstr(node)]
-    if isinstance(node, ast.IfExp) and cstr(node.body) is not None and cstr(node.orelse) is not None:
-        return [cstr(node.body), cstr(node.orelse)]
+        return ('vals', [cstr(node)])
+    if isinstance(node, ast.IfExp):
+        a, b = _label_source(node.body, fn, m, binds, where, depth + 1), _label_source(node.orelse, fn, m, binds, where, depth + 1)
+        if a[0] == 'vals' and b[0] == 'vals':
+            return ('vals', a[1] + b[1])
+    if isinstance(node, ast.Call) and isinstance(node.func, ast.Name) and node.func.id in m.funcs:
+        vals = _all_paths_return_const(m.funcs[node.func.id].body, f'{where}/{node.func.id}')
+        return ('helper', (node.func.id, id(node)), sorted(set(vals)))     # a vocabulary: independent of the order of the returns
     if isinstance(node, ast.Name):
-        defs = [s.value for s in ast.walk(fn) if isinstance(s, ast.Assign) and len(s.targets) == 1
-                and isinstance(s.targets[0], ast.Name) and s.targets[0].id == node.id]
-        if len(defs) == 1:
-            d = defs[0]
-            if isinstance(d, ast.Call) and isinstance(d.func, ast.Name) and d.func.id in m.funcs:
-                vals = _all_paths_return_const(m.funcs[d.func.id].body, f'{where}/{d.func.id}')
-                seen = []
-                for v in vals:
-                    if v not in seen:
-                        seen.append(v)
-                return seen
-            return _label_values(d, fn, m, where)
+        stores = [s for s in ast.walk(fn) if isinstance(s, ast.Name) and s.id == node.id and isinstance(s.ctx, (ast.Store, ast.Del))]
+        defs = [s for s in ast.walk(fn) if isinstance(s, (ast.Assign, ast.AnnAssign)) and getattr(s, 'value', None) is not None
+                and [getattr(t, 'id', None) for t in (s.targets if isinstance(s, ast.Assign) else [s.target])] == [node.id]]
+        if len(defs) == 1 and len(stores) == 1:
+            return _label_source(defs[0].value, fn, m, binds, where, depth + 1)
+        if not stores and binds is not None and node.id in binds:
+            arg, caller, cbinds = binds[node.id]
+            return _label_source(arg, caller, m, cbinds, where, depth + 1)
+        if not stores and node.id not in (_params(fn) or []) and cstr(m.assigns.get(node.id)) is not None:
+            return ('vals', [cstr(m.assigns[node.id])])      # a module-level string constant
     raise Fail(f'{where}: label expression {txt(node)} is not a literal, a conditional of literals or a call of a literal-returning helper')
 
 
-def _results_of(fn, m, where):
-    pairs = []
+def _builds_results(fn, m, stack=()):
+    """does fn (or a helper it calls) contain a CombinatorResult(...) literal"""
     for c in ast.walk(fn):
-        if isinstance(c, ast.Call) and isinstance(c.func, ast.Name) and c.func.id == 'CombinatorResult':
+        if isinstance(c, ast.Call) and isinstance(c.func, ast.Name):
+            if c.func.id == 'CombinatorResult':
+                return True
+            if c.func.id in m.funcs and c.func.id not in stack and c.func.id != fn.name and _builds_results(m.funcs[c.func.id], m, stack + (fn.name,)):
+                return True
+    return False
+
+
+def _head_source(node, fn, m, binds, depth=0):
+    """head_is_left of a CombinatorResult literal: True / False when it is a literal (possibly handed through the parameters of
+    result-building helpers or a once-assigned local), None when it is computed"""
+    if depth > 20 or node is None:
+        return None
+    if isinstance(node, ast.Constant) and isinstance(node.value, bool):
+        return node.value
+    if isinstance(node, ast.Name):
+        stores = [s for s in ast.walk(fn) if isinstance(s, ast.Name) and s.id == node.id and isinstance(s.ctx, (ast.Store, ast.Del))]
+        defs = [s for s in ast.walk(fn) if isinstance(s, (ast.Assign, ast.AnnAssign)) and getattr(s, 'value', None) is not None
+                and [getattr(t, 'id', None) for t in (s.targets if isinstance(s, ast.Assign) else [s.target])] == [node.id]]
+        if len(defs) == 1 and len(stores) == 1:
+            return _head_source(defs[0].value, fn, m, binds, depth + 1)
+        if not stores and binds is not None and node.id in binds:
+            arg, caller, cbinds = binds[node.id]
+            return _head_source(arg, caller, m, cbinds, depth + 1)
+    return None
+
+
+def _results_of(fn, m, where, binds=None, stack=()):
+    """the (op_string, op_symbol, head_is_left) triples of every CombinatorResult(...) literal that fn can return - in fn itself
+    or in the module-level helpers it calls (the helper's parameters are followed back to the arguments of the call);
+    head_is_left is None when it is not a literal"""
+    out = []
+    if fn.name in stack:
+        raise Fail(f'{where}: recursive result-building helper {fn.name}')
+    for c in ast.walk(fn):
+        if not (isinstance(c, ast.Call) and isinstance(c.func, ast.Name)):
+            continue
+        if c.func.id == 'CombinatorResult':
             kw = {k.arg: k.value for k in c.keywords}
             if c.args or 'op_string' not in kw or 'op_symbol' not in kw:
                 raise Fail(f'{where}: CombinatorResult without keyword op_string/op_symbol')
-            a, b = kw['op_string'], kw['op_symbol']
-            if isinstance(a, ast.Name) and isinstance(b, ast.Name) and a.id == b.id:
-                ps = [(v, v) for v in _label_values(a, fn, m, where)]
+            a = _label_source(kw['op_string'], fn, m, binds, where)
+            b = _label_source(kw['op_symbol'], fn, m, binds, where)
+            h = _head_source(kw.get('head_is_left'), fn, m, binds)
+            if a[0] == 'helper' and b[0] == 'helper' and a[1] == b[1]:
+                ps = [(v, v, h) for v in a[2]]        # both labels are the value of one call
             else:
-                ps = [(x, y) for x in _label_values(a, fn, m, where) for y in _label_values(b, fn, m, where)]
-            pairs += ps
-    return pairs
+                ps = [(x, y, h) for x in a[-1] for y in b[-1]]
+            out += ps
+        elif c.func.id in m.funcs and c.func.id != fn.name and _builds_results(m.funcs[c.func.id], m):
+            h = m.funcs[c.func.id]
+            params = _params(h)
+            names = (params or [])[:len(c.args)] + [k.arg for k in c.keywords]
+            if params is None or any(isinstance(x, ast.Starred) for x in c.args) or None in names or len(set(names)) != len(names) or not set(names) <= set(params):
+                raise Fail(f'{where}: call of the result-building helper {c.func.id} with an unsupported argument list')
+            hb = {n: (v, fn, binds) for n, v in zip(names, list(c.args) + [k.value for k in c.keywords])}
+            out += _results_of(h, m, f'{where}/{c.func.id}', hb, stack + (fn.name,))
+    return out
 
 
-def grammar_labels(repo, lang):
+def combinator_results(repo, lang):
+    """THE reading of the result vocabulary of depccg/grammar/<lang>.py, shared by every translator that needs it (gen_render for
+    C18/C19, gen_c20 for C20): which (op_string, op_symbol, head_is_left) triples each rule function can put into a
+    CombinatorResult.  Returns (binary, unary):
+      binary = [(combinator name, [triples])] for the functions of the literal `combinators` table, in table order,
+      unary  = [triples] of apply_unary_rules.
+    Labels are literals, conditionals of literals, once-assigned locals of those, module-level string constants, the constants a
+    literal-returning helper returns, and parameters of result-building helpers followed back to the call; anything else: Fail.
+    head_is_left is True / False, or None when it is not a literal (a consumer that needs the head must treat None as failure)."""
     m = Module(repo, f'depccg/grammar/{lang}.py', f'depccg.grammar.{lang}')
     combs = m.assigns.get('combinators')
     if not isinstance(combs, ast.List) or not all(isinstance(e, ast.Name) and e.id in m.funcs for e in combs.elts):
@@ -1159,25 +1269,34 @@ def grammar_labels(repo, lang):
     ab = m.funcs.get('apply_binary_rules')
     if ab is None or not any(isinstance(x, ast.Name) and x.id == 'combinators' for x in ast.walk(ab)):
         raise Fail(f'grammar/{lang}.py: apply_binary_rules does not iterate `combinators`')
-    if any(isinstance(c, ast.Call) and isinstance(c.func, ast.Name) and c.func.id == 'CombinatorResult' for c in ast.walk(ab)):
+    if _builds_results(ab, m):
         raise Fail(f'grammar/{lang}.py: apply_binary_rules builds results itself')
     binary = []
     for e in combs.elts:
-        ps = _results_of(m.funcs[e.id], m, f'grammar/{lang}.py:{e.id}')
-        if not ps:
+        ts = _results_of(m.funcs[e.id], m, f'grammar/{lang}.py:{e.id}')
+        if not ts:
             raise Fail(f'grammar/{lang}.py:{e.id}: no CombinatorResult')
-        for p in ps:
-            if p not in binary:
-                binary.append(p)
+        binary.append((e.id, ts))
     au = m.funcs.get('apply_unary_rules')
     if au is None:
         raise Fail(f'grammar/{lang}.py: no apply_unary_rules')
-    unary = []
-    for p in _results_of(au, m, f'grammar/{lang}.py:apply_unary_rules'):
-        if p not in unary:
-            unary.append(p)
+    unary = _results_of(au, m, f'grammar/{lang}.py:apply_unary_rules')
     if not unary:
         raise Fail(f'grammar/{lang}.py: apply_unary_rules builds no CombinatorResult')
+    return binary, unary
+
+
+def grammar_labels(repo, lang):
+    """(binary, unary): the distinct (op_string, op_symbol) pairs, in order of first occurrence"""
+    bres, ures = combinator_results(repo, lang)
+    binary, unary = [], []
+    for _, ts in bres:
+        for a, b, _h in ts:
+            if (a, b) not in binary:
+                binary.append((a, b))
+    for a, b, _h in ures:
+        if (a, b) not in unary:
+            unary.append((a, b))
     return binary, unary
 
 
@@ -1228,6 +1347,11 @@ def comment(text):
 def generate(repo):
     r = analyse(repo)
     T = 'list N'
+    import re as _re
+    _comment = globals()['comment']
+
+    def comment(t):         # source positions are kept out of the generated text: moving code must not change the model
+        return _comment(_re.sub(r':\d+\b', '', t))
     out = ['(* GENERATED by translate/gen_render.py from the repository source - do not edit *)',
            'From Coq Require Import List NArith.', 'Import ListNotations.', 'Open Scope N_scope.', '']
     pairs = lambda t: '[' + ';'.join(f'({lit(a)},{lit(b)})' for a, b in t) + ']'
@@ -1245,8 +1369,8 @@ def generate(repo):
         out.append(comment(f'---- {lang} / {fmt}: analysed functions {", ".join(d["functions"])}').strip())
         out.append(f'Definition strict_keys_{nm} : list ({T}) := {lits([k for k, _ in d["strict"]])}.'
                    + (comment("; ".join(f"{k!r} at {wh}" for k, wh in d["strict"])) if d['strict'] else ''))
-        out.append(f'Definition default_keys_{nm} : list ({T}) := {lits([k for k, _ in d["defaults"]])}.'
-                   + (comment(repr([k for k, _ in d["defaults"]])) if d['defaults'] else ''))
+        dk = sorted(k for k, _ in d["defaults"])        # information only: a set
+        out.append(f'Definition default_keys_{nm} : list ({T}) := {lits(dk)}.' + (comment(repr(dk)) if dk else ''))
         out.append(f'Definition mutations_{nm} : list ({T} * {T}) := {pairs([k for k, _ in d["mutations"]])}.'
                    + (comment("; ".join(f"{k[0]} {k[1]} at {wh}" for k, wh in d["mutations"])) if d['mutations'] else ''))
         lc = '[' + ';'.join(f'({lit(sc)},{lit(at)},{lits(list(keys))})' for (sc, at, keys), _ in d['labels']) + ']'
